@@ -313,15 +313,23 @@ func verifSortedKeys(m map[string]string) []string {
 
 type verifRandReader struct{}
 
+var verifRandStreams [][]byte
+
 func (verifRandReader) Read(p []byte) (int, error) {
 	verifRandCount++
 	for i := range p {
 		p[i] = byte(verifNext(fmt.Sprintf("rand_%d", i)))
 	}
+	verifRandStreams = append(verifRandStreams, append([]byte{}, p...))
 	return len(p), nil
 }
 
-func verifNativeReset()        { rand.Reader = verifRandReader{} }
+func verifRandStream(i int) []byte { return verifRandStreams[i] }
+
+func verifNativeReset() {
+	rand.Reader = verifRandReader{}
+	verifRandStreams = nil
+}
 func verifRandMayFail(on bool) {}
 func verifRandCalls() int      { return verifRandCount }
 
@@ -378,3 +386,19 @@ func verifTimeAt(name string, loc int, secGiven int64) time.Time {
 }
 
 func verifTimeIn(name string, loc int) time.Time { return verifTime(name) }
+
+func verifSkipCase() { panic(verifAssumeFailed{}) }
+
+func verifDependsOnExact(v any, name string) bool { return false }
+
+func verifBytesSym(name string, max, spare int) []byte {
+	n := int(verifNext(name + ".len"))
+	b := make([]byte, max+spare)
+	for i := range b {
+		b[i] = byte(verifNext(fmt.Sprintf("%s[%d]", name, i)))
+	}
+	if n > max {
+		n = max
+	}
+	return b[:n]
+}
